@@ -48,6 +48,7 @@ SNode(dd, lv, zs, lev, i) == SNodeK(dd, lv, zs, lev, i, DOMAIN lv)
 Mutators == {"set", "delete", "append", "range", "override"}
 Alphabet ==
   CASE Prop = "C06" -> {"set", "delete", "append", "range"}
+    [] Prop = "C07" -> {}                       \* C07 judges the proof queries (below); mutators only move the model
     [] Prop = "C08" -> {"override"}
     [] Prop = "C15" -> Mutators
     [] Prop = "ALL" -> Mutators
@@ -90,8 +91,26 @@ PropOK(e, x) ==
   IN CASE Prop \in {"C06", "C08"} -> e.res \in r.res /\ StateOK(e, x, post)
        [] Prop = "C15" -> (e.res \in r.res /\ Posted(e)) => EmptiesOK(e, post)
        [] Prop = "ALL" -> FullOK(e, x)
+       [] OTHER -> TRUE
 
 Post(e, x) == After(x.st, SpecStep(x.d, x.st, e.op), e.res)
+
+\* ---- membership-proof queries (read-only), against the IDEAL tree of the model state: every path element is
+\* the ideal root of the sibling subtree, the direction bits spell the position, the tree's root is the ideal root
+Under(lv, dd, lev, j) == {k \in DOMAIN lv : k \div Pow2(dd - lev) = j}
+ProofOK(e, x) ==
+  LET i == e.op.i
+      dd == x.d
+  IN IF i >= Pow2(dd) THEN e.res = "err"
+     ELSE /\ e.res = "ok"
+          /\ e.len = dd /\ Len(e.sib) = dd /\ Len(e.bits) = dd /\ e.idx = i
+          /\ \A k \in 1..dd :
+                LET lev == dd - k + 1
+                    a == i \div Pow2(dd - lev)
+                    sj == IF a % 2 = 0 THEN a + 1 ELSE a - 1
+                IN /\ e.bits[k] = a % 2
+                   /\ (x.hk = 1 => e.sib[k] = SNodeK(dd, x.st.lv, x.zs, lev, sj, Under(x.st.lv, dd, lev, sj)))
+          /\ (x.hk = 1 /\ Posted(e) => e.root = SNode(dd, x.st.lv, x.zs, 0, 0))
 
 \* ---- known finding pm-override-batch on hook lines (the root is not compared here: the facts for
 \* the deviant leaf map are not in the table; Trace_Tree compares it on the recorder's traces) ----
@@ -129,6 +148,16 @@ NewDev ==
   /\ More /\ E.ev = "new" /\ ~NewOK(E)
   /\ PrintT(<<"DEV", l>>) /\ PrintT(<<"WHY", l, <<"a fresh in-memory tree is not the empty tree", E.next, E.root, E.zs[1]>> >>)
   /\ m' = Drop1(m, E.inst) /\ l' = l + 1 /\ UNCHANGED n
+
+IsProof == More /\ E.ev = "proof"
+ProofJudged == Prop \in {"C07", "ALL"}
+ProofSkip == IsProof /\ (E.inst \notin DOMAIN m \/ ~ProofJudged) /\ l' = l + 1 /\ UNCHANGED <<m, n>>
+ProofGood == IsProof /\ E.inst \in DOMAIN m /\ ProofJudged /\ ProofOK(E, m[E.inst]) /\ l' = l + 1 /\ n' = Bump("judged") /\ UNCHANGED m
+ProofDev ==
+  /\ IsProof /\ E.inst \in DOMAIN m /\ ProofJudged /\ ~ProofOK(E, m[E.inst])
+  /\ PrintT(<<"DEV", l>>)
+  /\ PrintT(<<"WHY", l, <<"membership proof is not the ideal tree's", E.be, E.op, E.res>> >>)
+  /\ l' = l + 1 /\ UNCHANGED <<m, n>>          \* a read: the model state stays known
 
 IsCall == More /\ E.ev \in Mutators
 Tracked == E.inst \in DOMAIN m
@@ -174,7 +203,7 @@ Deviation ==
   /\ PrintT(<<"WHY", l, Why(E, X)>>)
   /\ m' = Drop1(m, E.inst) /\ UNCHANGED n /\ l' = l + 1
 
-Next == Eof \/ DropI \/ NewI \/ NewDev \/ Skip \/ Good \/ Pass \/ KnownF \/ Deviation
+Next == Eof \/ DropI \/ NewI \/ NewDev \/ Skip \/ Good \/ Pass \/ KnownF \/ Deviation \/ ProofSkip \/ ProofGood \/ ProofDev
 Spec == Init /\ [][Next]_vars
 
 Accepted ==
